@@ -159,3 +159,7 @@ mod tests {
         ));
     }
 }
+
+#[cfg(kani)]
+#[path = "/verif/harness/bam/decoder.rs"]
+mod verif_kani;
